@@ -183,7 +183,7 @@ fn block_duplicate<const ID: u64, const F1: u8, const F2: u8>() {
     let rc = ClientTransportParameters::decode_parameters(DecoderBuffer::new(&buf[..n1 + n2]));
     let rs = ServerTransportParameters::decode_parameters(DecoderBuffer::new(&buf[..n1 + n2]));
     kani::cover!(tp_int_valid(int_row(ID), x1) && tp_int_valid(int_row(ID), x2), "reach:both_values_valid");
-    kani::cover!(x1 == x2, "reach:same_value_twice");
+    kani::cover!(x1 == tp_int_effective(int_row(ID), None), "reach:first_occurrence_encodes_the_rfc_default");
     // 7.4: "An endpoint MUST NOT send a parameter more than once in a given transport parameters extension.  An
     // endpoint SHOULD treat receipt of duplicate transport parameters as a connection error of type
     // TRANSPORT_PARAMETER_ERROR."
@@ -191,6 +191,114 @@ fn block_duplicate<const ID: u64, const F1: u8, const F2: u8>() {
     assert!(rs.is_err(), "C14/decode_parameters/duplicate_parameter_rejected_from_server");
 }
 
+
+/// the SAME integer parameter twice, the FIRST occurrence explicitly encoding the RFC default value (so that the
+/// decoded struct is indistinguishable from "not seen yet" after it), the second any value of its encoding class.
+/// 7.4: a repeated parameter is an error whatever its values are.
+fn block_duplicate_default_first<const ID: u64, const F1: u8, const F2: u8>() {
+    let (x1, l1) = any_value_with_first_byte::<F1>();
+    let (x2, l2) = any_value_with_first_byte::<F2>();
+    kani::assume(x1 == tp_int_effective(int_row(ID), None));
+    let mut buf = [0u8; 40];
+    let n1 = tp_put_int_param(&mut buf, 0, ID, x1, l1);
+    pin_first_value_byte::<F1, 40>(&mut buf, n1 - l1);
+    // an unrelated (valid, zero-length) parameter in between: disable_active_migration
+    buf[n1] = 0x0c;
+    buf[n1 + 1] = 0x00;
+    let n2 = tp_put_int_param(&mut buf, n1 + 2, ID, x2, l2);
+    pin_first_value_byte::<F2, 40>(&mut buf, n1 + 2 + n2 - l2);
+    let rc = ClientTransportParameters::decode_parameters(DecoderBuffer::new(&buf[..n1 + 2 + n2]));
+    let rs = ServerTransportParameters::decode_parameters(DecoderBuffer::new(&buf[..n1 + 2 + n2]));
+    kani::cover!(tp_int_valid(int_row(ID), x2), "reach:second_value_valid");
+    assert!(rc.is_err(), "C14/decode_parameters/duplicate_after_explicit_default_rejected");
+    assert!(rs.is_err(), "C14/decode_parameters/duplicate_after_explicit_default_rejected_from_server");
+}
+
+/// PreferredAddress::encode against Figure 22 for one (concrete) combination of address families
+fn preferred_address_encode_case<const HAS4: bool, const HAS6: bool>() {
+    // RFC 9000 18.2 Figure 22: IPv4 Address (32), IPv4 Port (16), IPv6 Address (128), IPv6 Port (16),
+    // Connection ID Length (8), Connection ID (..), Stateless Reset Token (128); "Servers MAY choose to only send
+    // a preferred address of one address family by sending an all-zero address and port (0.0.0.0:0 or [::]:0) for
+    // the other family.  IP addresses are encoded in network byte order."
+    let ip4: [u8; 4] = kani::any();
+    let port4: u16 = kani::any();
+    let ip6: [u8; 16] = kani::any();
+    let port6: u16 = kani::any();
+    let cid: [u8; 4] = kani::any();
+    let token: [u8; 16] = kani::any();
+    let has4 = HAS4;
+    let has6 = HAS6;
+    // a present family carries a specified address (an all-zero one IS the encoding of "absent")
+    kani::assume(!has4 || ip4 != [0u8; 4] || port4 != 0);
+    kani::assume(!has6 || ip6 != [0u8; 16] || port6 != 0);
+    let value = PreferredAddress {
+        ipv4_address: if has4 { Some(SocketAddressV4::new(ip4, port4)) } else { None },
+        ipv6_address: if has6 { Some(SocketAddressV6::new(ip6, port6)) } else { None },
+        connection_id: connection::UnboundedId::try_from_bytes(&cid[..]).unwrap(),
+        stateless_reset_token: stateless_reset::Token::from(token),
+    };
+    // independent layout
+    let mut want = [0u8; 48];
+    if has4 {
+        want[0] = ip4[0];
+        want[1] = ip4[1];
+        want[2] = ip4[2];
+        want[3] = ip4[3];
+        want[4] = (port4 >> 8) as u8;
+        want[5] = port4 as u8;
+    }
+    if has6 {
+        let mut i = 0;
+        while i < 16 {
+            want[6 + i] = ip6[i];
+            i += 1;
+        }
+        want[22] = (port6 >> 8) as u8;
+        want[23] = port6 as u8;
+    }
+    want[24] = 4;
+    want[25] = cid[0];
+    want[26] = cid[1];
+    want[27] = cid[2];
+    want[28] = cid[3];
+    let mut i = 0;
+    while i < 16 {
+        want[29 + i] = token[i];
+        i += 1;
+    }
+    let mut out = [0u8; 48];
+    let written = {
+        let mut enc = s2n_codec::EncoderBuffer::new(&mut out);
+        enc.encode(&value);
+        enc.len()
+    };
+    kani::cover!(written > 0, "reach:encoded");
+    assert!(written == 4 + 2 + 16 + 2 + 1 + 4 + 16, "C14/preferred_address.encode/length_is_figure_22");
+    // (compared in three 16-byte chunks to keep the unwind bound small)
+    assert!(
+        out[0..16] == want[0..16] && out[16..32] == want[16..32] && out[32..48] == want[32..48],
+        "C14/preferred_address.encode/bytes_are_figure_22"
+    );
+    // as a transport parameter (Figure 21): id 0x0d, length 45, value
+    let mut tlv = [0u8; 48];
+    let tlv_len = {
+        let mut enc = s2n_codec::EncoderBuffer::new(&mut tlv);
+        enc.encode(&TransportParameterCodec(&Some(value)));
+        enc.len()
+    };
+    assert!(tlv_len == 47 && tlv[0] == 0x0d && tlv[1] == 45 && tlv[2] == out[0] && tlv[7] == out[5] && tlv[8] == out[6] && tlv[46] == out[44],
+        "C14/preferred_address.encode/tuple_is_id_length_value");
+    // round trip through the real decoder
+    let r = DecoderBuffer::new(&out[..written]).decode::<PreferredAddress>();
+    assert!(
+        matches!(r, Ok((d, rest)) if rest.is_empty()
+            && d.ipv4_address == value.ipv4_address && d.ipv6_address == value.ipv6_address
+            && d.connection_id.len() == 4 && d.connection_id.as_bytes()[0] == cid[0] && d.connection_id.as_bytes()[3] == cid[3]
+            && d.stateless_reset_token.into_inner() == token),
+        "C14/preferred_address.encode/decodes_to_the_same_value"
+    );
+    kani::cover!(true, "reach:end");
+}
 
 // ================================================================================================
 // 1. validators: Ok <=> oracle.valid(v), over the full value domain; Ok returns the value unchanged;
@@ -1253,6 +1361,69 @@ fn vq_c14_tp_block_two_initial_max_stream_data_bidi_remote_40_initial_max_stream
     block_duplicate::<0x06, 0x40, 0x40>();
 }
 
+//@ harness props=C14 tier=quick level=bounded timeout=300 bound="3 parameters per block: ack_delay_exponent encoding its RFC default (3), disable_active_migration, ack_delay_exponent again (first value byte 0x05, rest symbolic)"
+//@ fn TransportParameters::decode_parameters
+#[kani::proof]
+#[kani::unwind(14)]
+fn vq_c14_tp_block_duplicate_default_first_ack_delay_exponent() {
+    // obligations (asserted in block_duplicate_default_first): "C14/oracle.encoder/first_value_byte_is_the_declared_constant" "C14/decode_parameters/duplicate_after_explicit_default_rejected" "C14/decode_parameters/duplicate_after_explicit_default_rejected_from_server"
+    block_duplicate_default_first::<0x0a, 0x03, 0x05>();
+}
+
+//@ harness props=C14 tier=quick level=bounded timeout=300 bound="3 parameters per block: initial_max_data encoding its RFC default (0), disable_active_migration, initial_max_data again (first value byte 0x43, rest symbolic)"
+//@ fn TransportParameters::decode_parameters
+#[kani::proof]
+#[kani::unwind(14)]
+fn vq_c14_tp_block_duplicate_default_first_initial_max_data() {
+    // obligations (asserted in block_duplicate_default_first): "C14/oracle.encoder/first_value_byte_is_the_declared_constant" "C14/decode_parameters/duplicate_after_explicit_default_rejected" "C14/decode_parameters/duplicate_after_explicit_default_rejected_from_server"
+    block_duplicate_default_first::<0x04, 0x00, 0x43>();
+}
+
+//@ harness props=C14 tier=thorough level=bounded timeout=900 bound="3 parameters per block: active_connection_id_limit encoding its RFC default (2), disable_active_migration, active_connection_id_limit again (first value byte 0x02, rest symbolic)"
+//@ fn TransportParameters::decode_parameters
+#[kani::proof]
+#[kani::unwind(14)]
+fn vq_c14_tp_block_duplicate_default_first_active_connection_id_limit() {
+    // obligations (asserted in block_duplicate_default_first): "C14/oracle.encoder/first_value_byte_is_the_declared_constant" "C14/decode_parameters/duplicate_after_explicit_default_rejected" "C14/decode_parameters/duplicate_after_explicit_default_rejected_from_server"
+    block_duplicate_default_first::<0x0e, 0x02, 0x02>();
+}
+
+//@ harness props=C14 tier=thorough level=bounded timeout=900 bound="3 parameters per block: max_udp_payload_size encoding its RFC default (65527), disable_active_migration, max_udp_payload_size again (first value byte 0x45, rest symbolic)"
+//@ fn TransportParameters::decode_parameters
+#[kani::proof]
+#[kani::unwind(14)]
+fn vq_c14_tp_block_duplicate_default_first_max_udp_payload_size() {
+    // obligations (asserted in block_duplicate_default_first): "C14/oracle.encoder/first_value_byte_is_the_declared_constant" "C14/decode_parameters/duplicate_after_explicit_default_rejected" "C14/decode_parameters/duplicate_after_explicit_default_rejected_from_server"
+    block_duplicate_default_first::<0x03, 0x80, 0x45>();
+}
+
+//@ harness props=C14 tier=thorough level=bounded timeout=900 bound="3 parameters per block: max_ack_delay encoding its RFC default (25), disable_active_migration, max_ack_delay again (first value byte 0x40, rest symbolic)"
+//@ fn TransportParameters::decode_parameters
+#[kani::proof]
+#[kani::unwind(14)]
+fn vq_c14_tp_block_duplicate_default_first_max_ack_delay() {
+    // obligations (asserted in block_duplicate_default_first): "C14/oracle.encoder/first_value_byte_is_the_declared_constant" "C14/decode_parameters/duplicate_after_explicit_default_rejected" "C14/decode_parameters/duplicate_after_explicit_default_rejected_from_server"
+    block_duplicate_default_first::<0x0b, 0x19, 0x40>();
+}
+
+//@ harness props=C14 tier=thorough level=bounded timeout=900 bound="3 parameters per block: initial_max_streams_bidi encoding its RFC default (0), disable_active_migration, initial_max_streams_bidi again (first value byte 0x40, rest symbolic)"
+//@ fn TransportParameters::decode_parameters
+#[kani::proof]
+#[kani::unwind(14)]
+fn vq_c14_tp_block_duplicate_default_first_initial_max_streams_bidi() {
+    // obligations (asserted in block_duplicate_default_first): "C14/oracle.encoder/first_value_byte_is_the_declared_constant" "C14/decode_parameters/duplicate_after_explicit_default_rejected" "C14/decode_parameters/duplicate_after_explicit_default_rejected_from_server"
+    block_duplicate_default_first::<0x08, 0x00, 0x40>();
+}
+
+//@ harness props=C14 tier=thorough level=bounded timeout=900 bound="3 parameters per block: max_idle_timeout encoding its RFC default (0), disable_active_migration, max_idle_timeout again (first value byte 0x80, rest symbolic)"
+//@ fn TransportParameters::decode_parameters
+#[kani::proof]
+#[kani::unwind(14)]
+fn vq_c14_tp_block_duplicate_default_first_max_idle_timeout() {
+    // obligations (asserted in block_duplicate_default_first): "C14/oracle.encoder/first_value_byte_is_the_declared_constant" "C14/decode_parameters/duplicate_after_explicit_default_rejected" "C14/decode_parameters/duplicate_after_explicit_default_rejected_from_server"
+    block_duplicate_default_first::<0x01, 0x00, 0x80>();
+}
+
 //@ harness props=C14 tier=quick level=bounded timeout=300 bound="empty block"
 //@ fn TransportParameters::decode_parameters
 //@ fn TransportParameters::default
@@ -1489,3 +1660,37 @@ fn vq_c14_tp_block_encode() {
     kani::cover!(d == 16383 && e == 20 && l == 63, "reach:upper_values");
     kani::cover!(true, "reach:end");
 }
+
+//@ harness props=C14,C05 tier=quick level=bounded timeout=300 bound="preferred_address with a 4-byte connection id, IPv6 only (IPv4 address and port all-zero); all address, port, cid and token bytes symbolic"
+//@ fn PreferredAddress::encode
+//@ fn PreferredAddress::decode
+//@ fn TransportParameterCodec::encode
+#[kani::proof]
+#[kani::unwind(20)] // write_repeated over the 18 bytes of an absent IPv6 family; 16-byte loops / memcmp chunks
+fn vq_c14_tp_preferred_address_encode_ipv6_only() {
+    // obligations (asserted in preferred_address_encode_case): "C14/preferred_address.encode/length_is_figure_22" "C14/preferred_address.encode/bytes_are_figure_22" "C14/preferred_address.encode/tuple_is_id_length_value" "C14/preferred_address.encode/decodes_to_the_same_value"
+    preferred_address_encode_case::<false, true>();
+}
+
+//@ harness props=C14,C05 tier=thorough level=bounded timeout=900 bound="preferred_address with a 4-byte connection id, IPv4 only (IPv6 address and port all-zero); all address, port, cid and token bytes symbolic"
+//@ fn PreferredAddress::encode
+//@ fn PreferredAddress::decode
+//@ fn TransportParameterCodec::encode
+#[kani::proof]
+#[kani::unwind(20)] // write_repeated over the 18 bytes of an absent IPv6 family; 16-byte loops / memcmp chunks
+fn vq_c14_tp_preferred_address_encode_ipv4_only() {
+    // obligations (asserted in preferred_address_encode_case): "C14/preferred_address.encode/length_is_figure_22" "C14/preferred_address.encode/bytes_are_figure_22" "C14/preferred_address.encode/tuple_is_id_length_value" "C14/preferred_address.encode/decodes_to_the_same_value"
+    preferred_address_encode_case::<true, false>();
+}
+
+//@ harness props=C14,C05 tier=thorough level=bounded timeout=900 bound="preferred_address with a 4-byte connection id, both address families; all address, port, cid and token bytes symbolic"
+//@ fn PreferredAddress::encode
+//@ fn PreferredAddress::decode
+//@ fn TransportParameterCodec::encode
+#[kani::proof]
+#[kani::unwind(20)] // write_repeated over the 18 bytes of an absent IPv6 family; 16-byte loops / memcmp chunks
+fn vq_c14_tp_preferred_address_encode_both_families() {
+    // obligations (asserted in preferred_address_encode_case): "C14/preferred_address.encode/length_is_figure_22" "C14/preferred_address.encode/bytes_are_figure_22" "C14/preferred_address.encode/tuple_is_id_length_value" "C14/preferred_address.encode/decodes_to_the_same_value"
+    preferred_address_encode_case::<true, true>();
+}
+
